@@ -1,18 +1,25 @@
 """C17 — the access path does not change what is read.
-Model: coq/Model/Access.v (`read_via caps read_evlrs chunk bytes` -> result + call log, `read_mmap`, `mmap_set`).
-Correspondence: the extracted model and laspy on the same bytes: result (header fields, VLRs, EVLRs, records) for ten
-source kinds x read_evlrs x whole/chunked reading, the header shown right after laspy.open (before anything is read), and
-the exact sequence of stream methods called on the logging doubles (two of which offer read() and NOTHING else: no
-seekable, no close); memory map: result, and the file bytes after every edit. A malformed stream (truncations, gaps read
-sequentially, misplaced/over-counted EVLRs, bad signatures) is compared too.
-Search (no model): every access path against laspy.read(path), at two moments (just opened / everything read); the chunks
-of a chunked read are KEPT and looked at only after the last read (and the result once more after the reader is closed):
-records handed out earlier must not change; logs of non-seekable doubles; memory-map edits by byte diff."""
+Model: coq/Model/Access.v (`read_via caps read_evlrs steps bytes` -> result + call log, `consume_via` = the same without
+the final read(), `open_via`, `read_mmap`, `mmap_set`, `mmap_set_dim`).
+Correspondence: the extracted model and laspy on the same bytes: result (header fields, VLRs, EVLRs, records) for thirteen
+source kinds (path, pathlib, bytes, BytesIO, buffered / unbuffered file, a real pipe, six logging doubles of which two offer
+read() [+ readinto] and NOTHING else: no seekable, no seek/tell, no close) x read_evlrs {True, False, not given} x ways of
+consuming the reader (nothing, chunk iterators, read_points, mixtures) observed at three moments (just opened / consumed but
+not read() / everything read), laspy.read(source), and the exact sequence of stream methods called on the doubles at each
+moment; memory map: result, and the file bytes after every edit by every assignment route. A malformed stream (truncated
+point blocks, cuts inside records/EVLRs/header, gaps read sequentially, misplaced/over-counted EVLRs, bad signatures) is
+compared too.
+Search (no model): every access path against the path's at the three moments; the chunks handed out are KEPT and looked at
+only after the last read (and the result once more after the reader is closed); logs of non-seekable doubles and what a
+read()-only source was asked for, on EVERY file, malformed ones included; files cut inside their point block must read the
+same through every source; memory-map edits (whole dimension by attribute / item / record, scaled x y z, sub-fields, slices
+and elements of views) against the same edit on an in-memory copy, by byte diff of the file and by a subsequent read."""
 import io
 import os
+import pathlib
 import shutil
-import struct
 import tempfile
+import threading
 
 import numpy as np
 
@@ -21,20 +28,26 @@ from harness import common, lasio
 DRIVER = "c17"
 ASSUMPTIONS = [
     "uncompressed point data (no LAZ backend is installed; compressed sources are outside the model)",
-    "a source's read(n) returns all n bytes when they exist (short reads only at the end of the data), as files, BytesIO and the doubles do",
-    "a source that offers only read() (no seekable method, no close) is opened with closefd=False; for a LAS 1.4 file that announces EVLRs the "
-    "library has to ask seekable(): such a source then raises AttributeError, at opening or in read() (modelled: C17_bare_source_needs_seekable; "
-    "accepted by the oracle, counted in input_distribution) - every other file must read through it exactly as by path",
+    "a source's read(n) returns all n bytes when they exist (short reads only at the end of the data), as files, BytesIO, pipes "
+    "filled by a writer thread that closes its end, and the doubles do",
+    "a source that offers only read() (no seekable method, no close) is opened with closefd=False; it is used like a source whose "
+    "seekable() answers False (C17_bare_source_like_nonseekable) and must read every file exactly as by path",
     "the memory map is written back by mmap.close() (OS write-back of a shared mapping is not modelled)",
     "independence is proved for files whose points are all present and, for non-seekable sources, whose first EVLR starts right after the "
-    "last point (C17_written_files_are_laid_out: every file the writer model produces); other files are only compared model vs implementation",
+    "last point (C17_written_files_are_laid_out: every file the writer model produces), and for files cut inside their point block after a "
+    "whole number of records (C17_truncated_point_block); other files are only compared model vs implementation, plus the call-log theorems "
+    "which hold for every byte string",
+    "memory-map edits: values with as many elements as the map has records (a longer value makes the record grow into a private copy, which "
+    "no file can follow); the expected bytes of scaled assignments are those the same assignment gives on an in-memory copy of the file",
 ]
 
 # (label, seekable() answers, has readinto, has a seekable method (and close) at all)
 DOUBLES = [("double_read_only", False, False, True), ("double_nonseekable_readinto", False, True, True),
            ("double_no_readinto", True, False, True), ("double_full", True, True, True),
            ("double_bare", False, False, False), ("double_bare_readinto", False, True, False)]
-REAL = ["path", "bytes", "BytesIO", "buffered_file"]
+REAL = ["path", "pathlib", "bytes", "BytesIO", "buffered_file", "unbuffered_file"]
+PIPE = "pipe"       # a real non-seekable stream: seekable() is False, tell()/seek() raise, it has readinto
+CREATED = ("path", "pathlib", "bytes")      # sources for which laspy makes the stream itself
 
 
 class Double:
@@ -89,6 +102,30 @@ class Double:
         raise AttributeError(name)
 
 
+class Pipe:
+    """the read end of an OS pipe that a writer thread fills with `raw` and closes"""
+
+    def __init__(self, raw):
+        r, w = os.pipe()
+        self.f = os.fdopen(r, "rb")
+
+        def feed():
+            try:
+                with os.fdopen(w, "wb") as wf:
+                    wf.write(raw)
+            except (BrokenPipeError, OSError):
+                pass
+        self.t = threading.Thread(target=feed, daemon=True)
+        self.t.start()
+
+    def close(self):
+        try:
+            self.f.close()
+        except Exception:  # noqa
+            pass
+        self.t.join(timeout=5)
+
+
 # ---------------------------------------------------------------------------------
 # observations
 # ---------------------------------------------------------------------------------
@@ -132,6 +169,8 @@ def make_source(kind, raw, path):
     """returns (source object, double or None, closer)"""
     if kind == "path":
         return path, None, None
+    if kind == "pathlib":
+        return pathlib.Path(path), None, None
     if kind == "bytes":
         return raw, None, None
     if kind == "BytesIO":
@@ -139,6 +178,12 @@ def make_source(kind, raw, path):
     if kind == "buffered_file":
         f = open(path, "rb")
         return f, None, f
+    if kind == "unbuffered_file":
+        f = open(path, "rb", buffering=0)
+        return f, None, f
+    if kind == PIPE:
+        p = Pipe(raw)
+        return p.f, None, p
     for lab, sk, ri, hs in DOUBLES:
         if lab == kind:
             d = Double(raw, sk, ri, hs)
@@ -146,39 +191,62 @@ def make_source(kind, raw, path):
     raise ValueError(kind)
 
 
-def read_through(kind, raw, path, read_evlrs, chunk):
-    """laspy.open(source, read_evlrs=..) then read() (chunk None) or iterate by `chunk` points and then read().
-    The chunks are kept as the caller got them and turned into bytes only after read() (`ok`), next to the bytes each had
-    when it was handed out (`now`); the records of the result are looked at again after the reader is closed (`late`).
-    returns {"opened": header snapshot right after open, "ok": snapshot} or {"err": kind}, plus the double's log"""
+def plan_tok(plan):
+    return ",".join(f"{t}{v}" for t, v in plan) if plan else "-"
+
+
+def read_through(kind, raw, path, read_evlrs, plan, route="open"):
+    """route "open": laspy.open(source[, read_evlrs=..]) (read_evlrs None: not given), then the consumption plan (("c", k):
+    `for chunk in reader.chunk_iterator(k)`, ("p", n): reader.read_points(n)), then read(). Three moments are observed:
+    `opened` (the header right after open), `consumed` (the header the reader shows and the records handed out, before
+    read()), `ok` (everything read). The records handed out are kept as the caller got them and turned into bytes only after
+    read() (`ok`), next to the bytes each had when it was handed out (`now`); the records of the result are looked at again
+    after the reader is closed (`late`). route "read": laspy.read(source).
+    returns {"opened", "consumed", "ok"} or {"err": kind}, plus the double's log at the three moments"""
     import laspy
     src, dbl, closer = make_source(kind, raw, path)
     out = {}
     las = None
     try:
         kw = {} if has_close(kind) else {"closefd": False}
-        with laspy.open(src, read_evlrs=read_evlrs, **kw) as rd:
-            out["opened"] = snapshot_header(rd.header)
-            if dbl is not None:
-                out["log_open"] = list(dbl.log)
-            kept, now = [], []
-            if chunk is not None:
-                for pts in rd.chunk_iterator(chunk):
-                    kept.append(pts)
-                    now.append(lasio.rec_bytes(pts))
-            las = rd.read()
-            pre = b"".join(lasio.rec_bytes(p) for p in kept)
-            out["ok"] = snapshot(las, pre)
-            if kept:
-                out["now"] = hx(b"".join(now) + lasio.rec_bytes(las.points))
-                out["chunks"] = [len(x) for x in now]
-        out["late"] = hx(pre + lasio.rec_bytes(las.points))
+        if route == "read":
+            las = laspy.read(src, **kw)
+            out["ok"] = snapshot(las)
+        else:
+            if read_evlrs is not None:
+                kw["read_evlrs"] = read_evlrs
+            with laspy.open(src, **kw) as rd:
+                out["opened"] = snapshot_header(rd.header)
+                if dbl is not None:
+                    out["log_open"] = list(dbl.log)
+                kept, now = [], []
+                for (t, v) in plan:
+                    if t == "c":
+                        for pts in rd.chunk_iterator(v):
+                            kept.append(pts)
+                            now.append(lasio.rec_bytes(pts))
+                    else:
+                        pts = rd.read_points(v)
+                        kept.append(pts)
+                        now.append(lasio.rec_bytes(pts))
+                cons = snapshot_header(rd.header)
+                cons["evlrs_attr"] = None if rd.evlrs is None else len(rd.evlrs)
+                cons["points"] = hx(b"".join(now))
+                cons["count"] = len(b"".join(now)) // max(1, rd.header.point_format.size)
+                out["consumed"] = cons
+                if dbl is not None:
+                    out["log_consumed"] = list(dbl.log)
+                las = rd.read()
+                pre = b"".join(lasio.rec_bytes(p) for p in kept)
+                out["ok"] = snapshot(las, pre)
+                if kept:
+                    out["now"] = hx(b"".join(now) + lasio.rec_bytes(las.points))
+                    out["chunks"] = [len(x) for x in now]
+            out["late"] = hx(pre + lasio.rec_bytes(las.points))
     except Exception as ex:  # noqa
         out.pop("ok", None)
         out["err"] = common.exc_kind(ex)
         out["msg"] = f"{type(ex).__name__}: {ex}"[:200]
-        if out["err"] == "EOther:AttributeError" and "seekable" in out["msg"] and not has_close(kind):
-            out["err"] = "EOther"       # the model's name for: a source without a seekable method was asked
     finally:
         if closer is not None:
             closer.close()
@@ -231,8 +299,9 @@ def evaluable(raw):
 
 
 def make_files(ctx):
-    """valid files: every (version, format) x point counts x +-EVLRs (+ extra dimensions, + trailing bytes); then the
-    same with a GAP between the last point and the first EVLR; then a malformed stream."""
+    """valid files: every (version, format) x point counts x +-EVLRs (+ extra dimensions, + trailing bytes); the same with a
+    GAP between the last point and the first EVLR; the same CUT inside the point block after a whole number of records
+    (with and without announced EVLRs); then a malformed stream."""
     import laspy
     rng = ctx.rng
     files = []
@@ -268,17 +337,21 @@ def make_files(ctx):
                     gap = patch_u(gap, 235, 8, start + g)
                     if evaluable(gap):
                         files.append(dict(base, cls="gap", raw=gap, label=f"{version}/fmt{fmt}/n{n}/evlrs{nev}/gap{g}"))
-    # malformed stream (model vs implementation only)
+                if n and rng.random() < (0.5 if not ctx.thorough() else 1.0):
+                    # an interrupted copy: fewer whole records than the header announces, nothing after them
+                    k = rng.choice([0, n - 1, rng.randrange(0, n)])
+                    cut = raw[:off + k * ps]
+                    if evaluable(cut):
+                        files.append(dict(base, cls="truncated", raw=cut, stored=k, label=f"{version}/fmt{fmt}/n{n}/evlrs{nev}/cut_after_{k}_records"))
+    # malformed stream (model vs implementation; the oracle looks at the call logs and at the seekable sources)
     valid = [f for f in files if f["cls"] == "valid"]
     for _ in range(ctx.n(60, 600)):
         f = rng.choice(valid)
         raw, off, ps, n, nev = f["raw"], f["off"], f["ps"], f["n"], f["nev"]
-        how = rng.choice(["cut_points", "cut_record", "cut_evlr", "cut_header", "count_up", "count_down", "evlr_more", "evlr_elsewhere",
+        how = rng.choice(["cut_record", "cut_evlr", "cut_header", "count_up", "count_down", "evlr_more", "evlr_elsewhere",
                           "evlr_non_ascii", "bad_signature", "empty", "short", "small_offset", "evlr_count_on_empty"])
         bad = None
-        if how == "cut_points" and n:
-            bad = raw[:off + rng.randrange(0, n) * ps]
-        elif how == "cut_record" and n:
+        if how == "cut_record" and n:
             bad = raw[:off + rng.randrange(0, n) * ps + rng.randrange(1, ps)]
         elif how == "cut_evlr" and nev:
             bad = raw[:off + n * ps + rng.randrange(0, len(raw) - off - n * ps)]
@@ -315,21 +388,34 @@ def make_files(ctx):
     return files
 
 
-def configs(ctx, f):
-    """(kind, read_evlrs, chunk) to run on file f"""
+def plans_for(ctx, n):
+    """ways of consuming the reader before read(): nothing, chunk iterators, read_points, mixtures"""
     rng = ctx.rng
-    n = f["n"]
-    chunks = [None, rng.choice([1, 2, 3, max(1, n), n + 5])]
+    k = rng.choice([1, 2, 3, max(1, n), n + 5])
+    pool = [[("c", k)], [("p", rng.choice([0, 1, 2, max(1, n - 1), n, n + 3]))], [("p", 1), ("c", rng.choice([1, 2]))],
+            [("c", rng.choice([0, -1]))], [("p", rng.choice([1, 2])), ("p", -1)], [("p", 1), ("p", rng.choice([1, 3])), ("c", 2)]]
     if ctx.thorough():
-        chunks = [None, 1, 2, max(1, n), n + 5]
-    kinds = REAL + [d[0] for d in DOUBLES]
+        return [[], [("c", 1)], [("c", 2)], [("c", max(1, n))], [("c", n + 5)]] + pool[1:]
+    return [[], pool[0], rng.choice(pool[1:])]
+
+
+def configs(ctx, f):
+    """(kind, read_evlrs, plan) to run on file f; read_evlrs None = the argument is not given"""
+    rng = ctx.rng
+    plans = plans_for(ctx, f["n"])
+    kinds = REAL + [PIPE] + [d[0] for d in DOUBLES]
     if f["cls"] == "malformed" and not ctx.thorough():
-        kinds = [d[0] for d in DOUBLES] + [rng.choice(REAL)]
+        kinds = [d[0] for d in DOUBLES] + [PIPE, rng.choice(REAL)]
     out = []
     for kind in kinds:
-        for e in (True, False):
-            for c in chunks:
-                out.append((kind, e, c))
+        for e in (True, False, None):
+            if ctx.thorough() or kind == "path":
+                ps = plans
+            else:
+                # quick tier: the cross product is sampled per (kind, read_evlrs); "path" runs everything (it is the reference)
+                ps = [plans[0], rng.choice(plans[1:])] if e is None else [rng.choice(plans)]
+            for p in ps:
+                out.append((kind, e, p))
     return out
 
 
@@ -341,7 +427,6 @@ def observe(ctx):
     global _OBS
     if _OBS is not None:
         return _OBS
-    import laspy
     tmp = tempfile.mkdtemp(prefix="c17_", dir="/var/tmp")
     obs = {"files": [], "edits": []}
     try:
@@ -350,10 +435,13 @@ def observe(ctx):
         for f in files:
             with open(path, "wb") as fh:
                 fh.write(f["raw"])
-            rec = dict(f, runs=[])
-            rec["ref"] = read_through("path", f["raw"], path, True, None)
-            for (kind, e, c) in configs(ctx, f):
-                rec["runs"].append(((kind, e, c), read_through(kind, f["raw"], path, e, c)))
+            rec = dict(f, runs=[], reads=[])
+            rec["ref"] = read_through("path", f["raw"], path, True, [])
+            for (kind, e, plan) in configs(ctx, f):
+                rec["runs"].append(((kind, e, plan), read_through(kind, f["raw"], path, e, plan)))
+            kinds = sorted({k for (k, _, _), _ in rec["runs"]})
+            for kind in kinds:
+                rec["reads"].append((kind, read_through(kind, f["raw"], path, None, [], route="read")))
             rec["mmap"] = read_mmap(path)
             obs["files"].append(rec)
         obs["edits"] = observe_edits(ctx, files, tmp)
@@ -393,9 +481,36 @@ def new_value(rng, fdt, mask):
     return rng.choice([info.min, info.max, 0, 1, rng.randrange(info.min, info.max + 1)])
 
 
+# the ways of assigning through a LasData: the whole dimension (by attribute, by item, through the record), a slice or an
+# element of the view of the dimension
+WHOLE_ROUTES = ["attr", "item", "record", "view[:]", "record.array"]
+PART_ROUTES = ["view[i]", "view[a:b]", "view[mask]"]
+
+
+def assign(las, route, name, values, sel):
+    """performs the assignment on a LasData (memory map or in-memory copy). values: one per record for whole routes, the
+    selected ones otherwise; sel: None | int | slice | boolean mask"""
+    if route == "attr":
+        setattr(las, name, values)
+    elif route == "item":
+        las[name] = values
+    elif route == "record":
+        las.points[name] = values
+    elif route == "record.array":
+        las.points.array[name] = values
+    elif route == "view[:]":
+        las[name][:] = values
+    elif route in ("view[i]", "view[a:b]", "view[mask]"):
+        las[name][sel] = values
+    else:
+        raise ValueError(route)
+
+
 def observe_edits(ctx, files, tmp):
-    """for one file per (version, format) with points: assign every dimension through laspy.mmap, one session per
-    assignment; record the bytes before/after, and what laspy.read shows afterwards"""
+    """for one file per (version, format) with points: every dimension is assigned through laspy.mmap, one session per
+    assignment, by a route drawn among all of them (every route is used on every file); x, y, z (scaled) and xyz too.
+    The same assignment is made on an in-memory copy of the file (laspy.read): what the file must hold afterwards. Recorded:
+    the bytes before/after, what the map itself showed, and what laspy.read shows afterwards"""
     import laspy
     rng = ctx.rng
     out = []
@@ -414,56 +529,122 @@ def observe_edits(ctx, files, tmp):
         with open(path, "wb") as fh:
             fh.write(f["raw"])
         cur = f["raw"]
+        n = f["n"]
         try:
             with laspy.mmap(path) as m:
                 names = list(m.point_format.dimension_names)
                 pf = m.point_format
                 scaled_extra = {d.name for d in pf.extra_dimensions if d.scales is not None or d.offsets is not None}
         except Exception as ex:  # noqa
-            out.append({"file": f["label"], "raw_before": cur, "dim": None, "i": None, "err": f"{type(ex).__name__}: {ex}"[:200]})
+            out.append({"file": f["label"], "raw_before": cur, "dim": None, "route": None, "err": f"{type(ex).__name__}: {ex}"[:200]})
             continue
-        for name in names:
-            comp, foff, width, mask = field_of(pf, name)
-            fdt = pf.dtype().fields[comp][0]
-            i = rng.randrange(f["n"])
-            ed = {"file": f["label"], "raw_before": cur, "dim": name, "i": i, "off": f["off"], "ps": f["ps"], "foff": foff, "width": width,
-                  "mask": mask, "n": f["n"], "scaled": name in scaled_extra}
+        dt = pf.dtype()
+        jobs = []
+        routes = list(WHOLE_ROUTES + PART_ROUTES)
+        rng.shuffle(routes)
+        for j, name in enumerate(names):
+            jobs.append((name, routes[j % len(routes)]))
+            if ctx.thorough() or rng.random() < 0.35:
+                jobs.append((name, rng.choice(WHOLE_ROUTES[:3])))
+        for name in ("x", "y", "z"):
+            jobs.append((name, rng.choice(["attr", "item", "record", "view[:]", "view[i]", "view[a:b]"])))
+        jobs.append(("x", "attr"))
+        jobs.append(("xyz", "attr"))
+        for (name, route) in jobs:
+            whole = route in WHOLE_ROUTES
+            if whole:
+                sel, idx = None, list(range(n))
+            elif route == "view[i]":
+                sel = rng.randrange(n)
+                idx = [sel]
+            elif route == "view[a:b]":
+                a = rng.randrange(n)
+                b = rng.randrange(a, n + 1)
+                sel, idx = slice(a, b), list(range(a, b))
+            else:
+                mk = np.array([rng.random() < 0.5 for _ in range(n)])
+                sel, idx = mk, [i for i in range(n) if mk[i]]
+            ed = {"file": f["label"], "raw_before": cur, "dim": name, "route": route, "sel": repr(sel) if not isinstance(sel, np.ndarray) else [bool(x) for x in sel],
+                  "off": f["off"], "ps": f["ps"], "n": n}
             try:
-                with laspy.mmap(path) as m:
+                if name in ("x", "y", "z", "xyz"):
+                    # scaled: new stored integers, given as the coordinates they stand for
+                    raw_names = [name.upper()] if name != "xyz" else ["X", "Y", "Z"]
+                    if route == "record.array":
+                        continue
+                    with laspy.mmap(path) as m0:
+                        sc, of = np.array(m0.header.scales), np.array(m0.header.offsets)
+                    ints = np.array([[rng.choice([0, 1, -1, 1000, -123456, rng.randrange(-2 ** 20, 2 ** 20)]) for _ in raw_names] for _ in idx],
+                                    dtype=np.int64).reshape((len(idx), len(raw_names)))
+                    k = "xyz".index(name) if name != "xyz" else None
+                    vals = ints * (sc if k is None else sc[k]) + (of if k is None else of[k])
+                    values = vals if name == "xyz" else vals[:, 0]
+                    if route == "view[i]":
+                        values = float(values[0]) if name != "xyz" else values[0]
+                    fields = [(dt.fields[r][1], dt.fields[r][0].itemsize) for r in raw_names]
+                    ed["value"] = [lasio.f64bits(x) for x in np.ravel(values)]
+                    exact = None
+                else:
+                    comp, foff, width, mask = field_of(pf, name)
+                    fdt = dt.fields[comp][0]
+                    fields = [(foff, width)]
+                    use_array = name in scaled_extra or route == "record.array"
+                    if route == "record.array" and mask is not None:
+                        continue        # the record array has no sub-field columns
                     if fdt.shape:       # array-valued extra dimension
-                        val = [new_value(rng, fdt, None) for _ in range(int(np.prod(fdt.shape)))]
-                        arr = np.array(val, dtype=fdt.base).reshape(fdt.shape)
-                        if name in scaled_extra:
-                            m.points.array[name][i] = arr
-                        else:
-                            m[name][i] = arr
-                        ed["expect"] = arr.tobytes()
+                        nel = int(np.prod(fdt.shape))
+                        values = np.array([[new_value(rng, fdt, None) for _ in range(nel)] for _ in idx], dtype=fdt.base).reshape((len(idx),) + fdt.shape)
                     else:
-                        val = new_value(rng, fdt, mask)
-                        if name in scaled_extra:
-                            m.points.array[name][i] = val
-                        else:
-                            m[name][i] = val
+                        values = np.array([new_value(rng, fdt, mask) for _ in idx], dtype=(fdt if mask is None else np.uint8))
+                    exact = {}
+                    for t, i in enumerate(idx):
+                        p = f["off"] + i * f["ps"] + foff
                         if mask is None:
-                            ed["expect"] = np.array(val, dtype=fdt).tobytes()
+                            exact[i] = np.asarray(values[t], dtype=fdt.base).tobytes()
                         else:
                             shift = (mask & -mask).bit_length() - 1
-                            p = f["off"] + i * f["ps"] + foff
                             old = int.from_bytes(cur[p:p + width], "little")
-                            ed["expect"] = ((old & ~mask) | (val << shift)).to_bytes(width, "little")
-                    ed["value"] = val if not isinstance(val, list) else list(val)
+                            exact[i] = ((old & ~mask) | (int(values[t]) << shift)).to_bytes(width, "little")
+                    ed["value"] = np.asarray(values).tolist()
+                    if route == "view[i]":
+                        values = values[0]
+                    if name in scaled_extra and route != "record.array":
+                        # the stored integers are assigned through the record array (scaled extra dimensions are C11's)
+                        route_eff = "record.array" if whole else None
+                    else:
+                        route_eff = route
+                ed["fields"] = fields
+
+                def do(las):
+                    if name in ("x", "y", "z", "xyz"):
+                        assign(las, route, name, values, sel)
+                    elif route_eff is None:
+                        las.points.array[name][sel] = values
+                    else:
+                        assign(las, route_eff, name, values, sel)
+                twin = laspy.read(path)
+                try:
+                    do(twin)
+                except Exception as ex:  # noqa: not an assignment laspy accepts on any LasData: nothing to say about the map
+                    ctx.count(f"mmap edit route not applicable: {route} ({type(ex).__name__})")
+                    continue
+                ed["expect_points"] = lasio.rec_bytes(twin.points)
+                ed["exact"] = exact
+                with laspy.mmap(path) as m:
+                    do(m)
+                    ed["map_points"] = lasio.rec_bytes(m.points)
+                    ed["map_len"] = len(m.points)
                 with open(path, "rb") as fh:
                     cur = fh.read()
                 ed["raw_after"] = cur
                 back = laspy.read(path)
                 ed["read_points"] = lasio.rec_bytes(back.points)
-                got = back.points.array[comp][i]
-                ed["read_field"] = np.asarray(got).tobytes()
                 ed["read_snapshot"] = snapshot(back)
-                if mask is not None:
-                    ed["read_sub"] = int(np.asarray(back[name])[i])
             except Exception as ex:  # noqa
                 ed["err"] = f"{type(ex).__name__}: {ex}"[:200]
+                with open(path, "wb") as fh:       # start again from a clean file
+                    fh.write(f["raw"])
+                cur = f["raw"]
             out.append(ed)
     return out
 
@@ -476,6 +657,8 @@ def caps_of(kind):
     for lab, sk, ri, hs in DOUBLES:
         if lab == kind:
             return sk, ri
+    if kind == PIPE:
+        return False, True
     return True, True
 
 
@@ -491,8 +674,12 @@ def tf(b):
     return "T" if b else "F"
 
 
+def etok(e):
+    return "D" if e is None else tf(e)
+
+
 def parse_model(line):
-    """-> dict(ok=..., log=[..], nst=bool) for `via`; dict(ok=...) for mmap/file"""
+    """-> dict(ok=..., log=[..], nst=bool, oo=bool) for `via`/`consume`/`open`; dict(ok=...) for mmap/file"""
     parts = line.split(" | ")
     head = parts[0].split(" ")
     out = {}
@@ -509,8 +696,9 @@ def parse_model(line):
     if len(parts) > 1:
         out["log"] = [] if parts[1] == "-" else parts[1].split(",")
         out["nst"] = parts[2] == "T"
+        out["oo"] = len(parts) > 3 and parts[3] == "T"
     elif head[0] not in ("ok", "err"):
-        out["log"], out["nst"] = ["?"], False
+        out["log"], out["nst"], out["oo"] = ["?"], False, False
     return out
 
 
@@ -539,94 +727,155 @@ def differs(model, impl, points=True):
     return None
 
 
+def log_ok(model, impl_log, both_err):
+    # the model reads a whole EVLR header before it reports a user id that is not ASCII; the library stops earlier
+    return model["log"][:len(impl_log)] == impl_log if both_err else model["log"] == impl_log
+
+
+def edit_fields(ed):
+    """the bytes each record must hold after the edit in the assigned field(s): [(foff, width, concatenated bytes)]"""
+    k, n = ed["ps"], ed["n"]
+    out = []
+    for (foff, width) in ed["fields"]:
+        out.append((foff, width, b"".join(ed["expect_points"][i * k + foff:i * k + foff + width] for i in range(n))))
+    return out
+
+
 def correspond(ctx):
     ctx.extra["rule"] = (
         "files written by laspy for every (version, format) x point counts {0,1,2,7,..} x {no EVLR, 1-3 EVLRs} (1.4), 25% with extra "
-        "dimensions, random VLRs/header fields; variants with trailing bytes, with a GAP between the last point and the first EVLR, and a "
-        "malformed stream (cuts inside points/records/EVLRs/header, point count up/down, more EVLRs than stored, EVLRs elsewhere, non-ASCII "
-        "user id, bad signature, empty/short source, offset < 227). Each file is read through path, bytes, BytesIO, buffered file and six "
-        "logging doubles (seekable x readinto, and two that offer read() [+ readinto] and nothing else) x read_evlrs x {read(), chunk iterator "
-        "+ read()}, observed right after laspy.open and when everything is read (chunks kept by the caller and looked at after the last read), "
-        "and through laspy.mmap; every dimension of one file per format is assigned through the map. non-trivial = the file has points or EVLRs; distinct by (file label, source kind, "
-        "read_evlrs, chunk size)")
+        "dimensions, random VLRs/header fields; variants with trailing bytes, with a GAP between the last point and the first EVLR, CUT "
+        "inside the point block after a whole number of records, and a malformed stream (cuts inside records/EVLRs/header, point count "
+        "up/down, more EVLRs than stored, EVLRs elsewhere, non-ASCII user id, bad signature, empty/short source, offset < 227). Each file is "
+        "read through path, pathlib.Path, bytes, BytesIO, buffered and unbuffered file, an OS pipe and six logging doubles (seekable x "
+        "readinto, and two that offer read() [+ readinto] and nothing else) x read_evlrs {True, False, not given} x ways of consuming the "
+        "reader (nothing, chunk iterators, read_points, mixtures; sampled in the quick tier), observed right after laspy.open, after the "
+        "consumption and when everything is read (records kept by the caller and looked at after the last read), through laspy.read, and "
+        "through laspy.mmap; every dimension (and x, y, z, xyz) of one file per format is assigned through the map by every route (whole "
+        "dimension by attribute / item / record / record array / full slice, element, slice and mask of the view). non-trivial = the file "
+        "has points or EVLRs; distinct by (file label, source kind, read_evlrs, plan)")
     obs = observe(ctx)
     cmds, meta = [], []
     for fi, f in enumerate(obs["files"]):
         x = common.hexb(f["raw"])
         opened = set()
-        for ri, ((kind, e, c), _) in enumerate(f["runs"]):
+        for ri, ((kind, e, plan), _) in enumerate(f["runs"]):
             sk, rinto = caps_of(kind)
             hs = has_close(kind)
-            cmds.append(f"via {tf(sk)} {tf(rinto)} {tf(hs)} {tf(e)} {'-' if c is None else c} {x}")
+            cmds.append(f"via {tf(sk)} {tf(rinto)} {tf(hs)} {etok(e)} {plan_tok(plan)} {x}")
             meta.append(("via", fi, ri))
+            if plan:        # nothing consumed: the reader is as laspy.open left it (the `open` line)
+                cmds.append(f"consume {tf(sk)} {tf(rinto)} {tf(hs)} {etok(e)} {plan_tok(plan)} {x}")
+                meta.append(("consume", fi, ri))
             if (sk, rinto, hs, e) not in opened:        # laspy.open alone: once per capabilities, compared with every run
                 opened.add((sk, rinto, hs, e))
-                cmds.append(f"open {tf(sk)} {tf(rinto)} {tf(hs)} {tf(e)} {x}")
+                cmds.append(f"open {tf(sk)} {tf(rinto)} {tf(hs)} {etok(e)} {x}")
                 meta.append(("open", fi, (sk, rinto, hs, e)))
+        for ri, (kind, _) in enumerate(f["reads"]):
+            sk, rinto = caps_of(kind)
+            cmds.append(f"via {tf(sk)} {tf(rinto)} {tf(has_close(kind))} D - {x}")
+            meta.append(("read", fi, ri))
         cmds.append("mmap " + x)
         meta.append(("mmap", fi, None))
     for ei, ed in enumerate(obs["edits"]):
         if "err" in ed:
             continue
-        cmds.append(f"set {common.hexb(ed['raw_before'])} {ed['off']} {ed['ps']} {ed['i']} {ed['foff']} {common.hexb(ed['expect'])}")
-        meta.append(("set", ei, None))
+        # the edit as whole-dimension assignments of the model: every record gets the bytes the in-memory copy holds
+        cur = common.hexb(ed["raw_before"])
+        flds = edit_fields(ed)
+        cmds.append("setdim " + " ".join([cur, str(ed["off"]), str(ed["ps"]), str(flds[0][0]), str(flds[0][1]), common.hexb(flds[0][2])]))
+        meta.append(("setdim", ei, len(flds)))
         cmds.append("file " + common.hexb(ed["raw_after"]))
         meta.append(("file", ei, None))
+    cmds.append("default")
+    meta.append(("default", None, None))
     outs = common.run_model(cmds, name=DRIVER)
+    # edits of several fields (xyz): chain the remaining fields on the model's output
+    more, more_meta = [], []
+    for (what, a, b), line in zip(meta, outs):
+        if what == "setdim" and b > 1:
+            more_meta.append(a)
+    chained = {}
+    for ei in more_meta:
+        ed = obs["edits"][ei]
+        flds = edit_fields(ed)
+        cur = outs[[i for i, m in enumerate(meta) if m[0] == "setdim" and m[1] == ei][0]]
+        for (foff, width, bs) in flds[1:]:
+            cur = common.run_model([f"setdim {cur} {ed['off']} {ed['ps']} {foff} {width} {common.hexb(bs)}"], name=DRIVER)[0]
+        chained[ei] = cur
     dis = []
 
     def add(kind, inp, model, impl):
         if len(dis) < 40:
             dis.append({"kind": kind, "input": inp, "model": model, "impl": impl})
     for (what, a, b), line in zip(meta, outs):
-        if what == "via":
+        if what in ("via", "consume", "read"):
             f = obs["files"][a]
-            (kind, e, c), impl = f["runs"][b]
+            if what == "read":
+                kind, impl = f["reads"][b]
+                e, plan = None, []
+            else:
+                (kind, e, plan), impl = f["runs"][b]
             model = parse_model(line)
             ctx.traces += 1
-            ctx.count("class:" + f["cls"])
-            ctx.count("kind:" + kind)
-            ctx.count("outcome:" + (model.get("err") or "ok"))
-            ctx.case((f["label"], kind, e, c), nontrivial=(f["n"] > 0 or f["nev"] > 0),
-                     sample={"file": f["label"], "kind": kind, "read_evlrs": e, "chunk": c, "model_log": ",".join(model.get("log", []))[:120]})
-            inp = {"file": f["label"], "class": f["cls"], "kind": kind, "read_evlrs": e, "chunk": c, "file_hex": f["raw"].hex()}
-            d = differs(model, impl)
-            if d and f["label"].endswith("/small_offset") and kind in ("path", "buffered_file") and "err" in model and "err" in impl:
-                d = None    # read(n < -1): a buffered file raises ValueError where BytesIO reads everything; the open fails either way
-            if d:
-                add(f"result {d[0]} ({f['cls']})", inp, str(d[1])[:120], str(d[2])[:160])
-            if "log" in impl:
-                if "err" in model and "err" in impl:
-                    # the model reads a whole EVLR header before it reports a user id that is not ASCII; the library stops earlier
-                    ok = model["log"][:len(impl["log"])] == impl["log"]
+            inp = {"file": f["label"], "class": f["cls"], "kind": kind, "read_evlrs": e, "plan": plan_tok(plan), "file_hex": f["raw"].hex()}
+            if what == "via":
+                ctx.count("class:" + f["cls"])
+                ctx.count("kind:" + kind)
+                ctx.count("read_evlrs:" + ("not given" if e is None else str(e)))
+                ctx.count("plan:" + ("read() only" if not plan else "+".join(sorted({t for t, _ in plan})).replace("c", "chunk_iterator").replace("p", "read_points")))
+                ctx.count("outcome:" + (model.get("err") or "ok"))
+                ctx.case((f["label"], kind, e, plan_tok(plan)), nontrivial=(f["n"] > 0 or f["nev"] > 0),
+                         sample={"file": f["label"], "kind": kind, "read_evlrs": e, "plan": plan_tok(plan), "model_log": ",".join(model.get("log", []))[:120]})
+            if what == "read":
+                inp["route"] = "laspy.read"
+                ctx.count("route:laspy.read")
+            if what == "consume":
+                inp["stage"] = "consumed"
+                if "consumed" in impl:
+                    io_ = {"ok": impl["consumed"]}
+                elif "opened" in impl:
+                    io_ = {"err": impl.get("err", "?"), "msg": impl.get("msg", "")}
                 else:
-                    ok = model["log"] == impl["log"]
-                if not ok:
-                    add(f"call log ({f['cls']})", inp, ",".join(model["log"])[:300], ",".join(impl["log"])[:300])
+                    io_ = {"err": impl.get("err", "?"), "msg": impl.get("msg", "")}
+                ilog = impl.get("log_consumed", impl.get("log"))
+            else:
+                io_ = impl
+                ilog = impl.get("log")
+            d = differs(model, io_)
+            small = f["label"].endswith("/small_offset") and kind in ("path", "pathlib", "buffered_file", "unbuffered_file", PIPE) and "err" in model and "err" in io_
+            if d and small:
+                d = None    # read(n < -1): a file object raises ValueError where BytesIO reads everything; the open fails either way
+            if d:
+                add(f"{'result' if what != 'consume' else 'before read()'} {d[0]} ({f['cls']})", inp, str(d[1])[:120], str(d[2])[:160])
+            if ilog is not None and "log" in model:
+                if not log_ok(model, ilog, "err" in model and "err" in io_):
+                    add(f"call log{'' if what != 'consume' else ' before read()'} ({f['cls']})", inp, ",".join(model["log"])[:300], ",".join(ilog)[:300])
                 sk, _ = caps_of(kind)
                 if not sk and not model["nst"]:
                     add("model log of a non-seekable source has seek/tell", inp, ",".join(model["log"])[:300], "")
-                if not has_close(kind) and impl["asked"] and set(impl["asked"]) - {"readinto", "seekable", "seek", "tell"}:
+                if not model["oo"]:
+                    add("model log has a call the source does not offer", inp, ",".join(model["log"])[:300], "")
+                if what == "via" and not has_close(kind) and impl["asked"] and set(impl["asked"]) - {"readinto", "seekable", "seek", "tell"}:
                     ctx.count("bare source asked for: " + ",".join(sorted(set(impl["asked"]))))
         elif what == "open":
             f = obs["files"][a]
             model = parse_model(line)
-            for (kind, e, c), impl in f["runs"]:
+            for (kind, e, plan), impl in f["runs"]:
                 if caps_of(kind) + (has_close(kind), e) != b:
                     continue
                 ctx.traces += 1
                 ctx.count("open stage:" + (model.get("err") or ("evlrs " + ("deferred" if model["ok"]["evlrs"] is None else "loaded"))))
-                inp = {"file": f["label"], "class": f["cls"], "kind": kind, "read_evlrs": e, "chunk": c, "stage": "opened", "file_hex": f["raw"].hex()}
+                inp = {"file": f["label"], "class": f["cls"], "kind": kind, "read_evlrs": e, "plan": plan_tok(plan), "stage": "opened", "file_hex": f["raw"].hex()}
                 io_ = {"ok": impl["opened"]} if "opened" in impl else {"err": impl.get("err", "?"), "msg": impl.get("msg", "")}
                 d = differs(model, io_, points=False)
-                if d and f["label"].endswith("/small_offset") and kind in ("path", "buffered_file") and "err" in model and "err" in io_:
+                if d and f["label"].endswith("/small_offset") and kind in ("path", "pathlib", "buffered_file", "unbuffered_file", PIPE) and "err" in model and "err" in io_:
                     d = None
                 if d:
                     add(f"just opened: {d[0]} ({f['cls']})", inp, str(d[1])[:120], str(d[2])[:160])
                 if "log" in impl:
                     ilog = impl.get("log_open", impl["log"])
-                    ok = model["log"][:len(ilog)] == ilog if ("err" in model and "err" in io_) else model["log"] == ilog
-                    if not ok:
+                    if not log_ok(model, ilog, "err" in model and "err" in io_):
                         add(f"call log of laspy.open ({f['cls']})", inp, ",".join(model["log"])[:300], ",".join(ilog)[:300])
         elif what == "mmap":
             f = obs["files"][a]
@@ -638,20 +887,26 @@ def correspond(ctx):
             if d:
                 add(f"mmap {d[0]} ({f['cls']})", {"file": f["label"], "class": f["cls"], "kind": "mmap", "file_hex": f["raw"].hex()},
                     str(d[1])[:120], str(d[2])[:160])
-        elif what == "set":
+        elif what == "setdim":
             ed = obs["edits"][a]
             ctx.traces += 1
             ctx.count("kind:mmap-edit")
-            ctx.case((ed["file"], "edit", ed["dim"], ed["i"]), nontrivial=True)
-            if line != common.hexb(ed["raw_after"]):
-                add("mmap edit: file bytes", {"file": ed["file"], "dim": ed["dim"], "i": ed["i"], "value": ed["value"]}, line[:80], common.hexb(ed["raw_after"])[:80])
-        else:
+            ctx.count("mmap edit route:" + ed["route"])
+            ctx.case((ed["file"], "edit", ed["dim"], ed["route"], str(ed["sel"])), nontrivial=True)
+            got = chained.get(a, line)
+            if got != common.hexb(ed["raw_after"]):
+                add("mmap edit: file bytes", {"file": ed["file"], "dim": ed["dim"], "route": ed["route"], "sel": ed["sel"], "value": ed["value"]},
+                    got[:80], common.hexb(ed["raw_after"])[:80])
+        elif what == "file":
             ed = obs["edits"][a]
             model = parse_model(line)
             ctx.traces += 1
             d = differs(model, {"ok": ed["read_snapshot"]})
             if d:
-                add("read after mmap edit: " + d[0], {"file": ed["file"], "dim": ed["dim"], "i": ed["i"]}, str(d[1])[:120], str(d[2])[:120])
+                add("read after mmap edit: " + d[0], {"file": ed["file"], "dim": ed["dim"], "route": ed["route"]}, str(d[1])[:120], str(d[2])[:120])
+        elif what == "default":
+            ctx.traces += 1
+            ctx.extra["default_read_evlrs_in_model"] = line
     return dis
 
 
@@ -683,16 +938,29 @@ def needs_evlrs(raw):
     return len(raw) >= 247 and raw[25] >= 4 and int.from_bytes(raw[243:247], "little") > 0
 
 
-def judge(raw, cls, kind, e, c, ref, ref_open, got):
-    """the property on one access path: (kind of failure, what was observed) pairs; `ref` is the whole read by path,
-    `ref_open` what the reader of the path shows right after laspy.open with the same read_evlrs"""
+def src_name(kind):
     sk, _ = caps_of(kind)
-    bare = not has_close(kind)
-    src = ("a source that offers only read()" if bare else "seekable source" if sk else "non-seekable source")
+    if not has_close(kind):
+        return "a source that offers only read()"
+    if kind == PIPE:
+        return "a pipe"
+    if kind in CREATED:
+        return "seekable source made by laspy"
+    return "seekable source" if sk else "non-seekable source"
+
+
+def ln(x):
+    return None if x is None else len(x)
+
+
+def judge(raw, cls, kind, e, plan, ref, ref_same, got):
+    """the property on one access path: (kind of failure, what was observed) pairs; `ref` is the whole read by path with
+    EVLRs loaded at opening, `ref_same` the run by path with the same read_evlrs and the same plan"""
+    sk, _ = caps_of(kind)
+    src = src_name(kind)
     out = []
     needs = needs_evlrs(raw)
-    if bare and needs and got.get("err") == "EOther":
-        return [("accepted", "AttributeError: a source without a seekable method, a file with EVLRs")]
+    arg = "not given" if e is None else e
     # 1. everything read
     if cls != "gap" or sk:
         d = same_read(ref, got)
@@ -707,21 +975,70 @@ def judge(raw, cls, kind, e, c, ref, ref_open, got):
                         f"chunks of {got.get('chunks')} bytes kept by the caller; byte {k} of the records differs once everything is read"))
         if "late" in got and got["late"] != got["ok"]["points"]:
             out.append(("records changed when the reader was closed", "the records of the result differ after leaving the with-block"))
-    # 3. just opened: the same header; EVLRs as by path, or left for read() when the source cannot seek to them
-    if "opened" in got and ref_open is not None and "opened" in ref_open:
-        a, b = ref_open["opened"], got["opened"]
+    # 3. just opened, and consumed without read(): the same header; EVLRs as by path, or left for read() when the source
+    #    cannot seek to them; the same records handed out
+    for stage, title in (("opened", "just opened"), ("consumed", "before read()")):
+        if stage not in got or ref_same is None or stage not in ref_same:
+            continue
+        a, b = ref_same[stage], got[stage]
+        bad = False
         for k in ("header", "format", "vlrs"):
             if a[k] != b[k]:
                 what = [x for x in HDR_KEYS if a[k][x] != b[k][x]] if k == "header" else k
-                out.append((f"just opened: {k} differs from the path's: {src}, {cls} file", f"{what}"))
+                out.append((f"{title}: {k} differs from the path's: {src}, {cls} file", f"{what}"))
+                bad = True
                 break
+        if bad:
+            continue
         want = a["evlrs"] if (sk or not needs) else None
         if b["evlrs"] != want:
-            def ln(x):
-                return None if x is None else len(x)
-            out.append((f"just opened: evlrs differ from the path's: {src}, {cls} file",
-                        f"header.evlrs right after open(read_evlrs={e}): {ln(b['evlrs'])} here, {ln(a['evlrs'])} by path"
+            out.append((f"{title}: evlrs differ from the path's: {src}, {cls} file, read_evlrs {'not given' if e is None else 'given'}",
+                        f"header.evlrs after open(read_evlrs {arg}) and plan {plan_tok(plan)}: {ln(b['evlrs'])} here, {ln(a['evlrs'])} by path"
                         + ("" if want is a["evlrs"] else " (None expected: left for read())")))
+        if stage == "consumed":
+            if b["evlrs_attr"] != ln(b["evlrs"]):
+                out.append((f"{title}: reader.evlrs is not header.evlrs", f"{b['evlrs_attr']} / {ln(b['evlrs'])}"))
+            if a["points"] != b["points"]:
+                out.append((f"{title}: records handed out differ from the path's: {src}, {cls} file",
+                            f"plan {plan_tok(plan)}: {b['count']} records here, {a['count']} by path (or other bytes)"))
+    return out
+
+
+def judge_edit(ed):
+    """the property on one assignment through the memory map: (kind, observed) pairs"""
+    out = []
+    how = f"{ed['route']}"
+    if "err" in ed:
+        return [(f"mmap edit raised ({how}): " + ed["err"].split(":")[0], ed["err"])]
+    a, b = ed["raw_before"], ed["raw_after"]
+    k, n, off = ed["ps"], ed["n"], ed["off"]
+    if len(a) != len(b):
+        return [("mmap edit changed the file length", f"{len(a)} -> {len(b)}")]
+    if ed["map_len"] != n:
+        out.append((f"mmap edit changed the number of records of the map ({how})", f"{ed['map_len']} records, the file has {n}"))
+    allowed = set()
+    for i in range(n):
+        for (foff, width) in ed["fields"]:
+            allowed.update(range(off + i * k + foff, off + i * k + foff + width))
+    outside = [j for j in range(len(a)) if a[j] != b[j] and j not in allowed]
+    if outside:
+        out.append((f"mmap edit changed bytes outside the assigned dimension ({how})", f"dimension bytes {ed['fields']} of each record, changed {outside[:8]}"))
+    exp = ed["expect_points"]
+    if ed["map_points"][:n * k] != exp:
+        out.append((f"the memory map does not show the assigned values ({how})", "records of the map differ from those of an in-memory copy after the same assignment"))
+    if b[off:off + n * k] != exp:
+        j = next(i for i in range(n * k) if b[off + i] != exp[i])
+        out.append((f"mmap edit did not reach the file ({how})",
+                    f"record {j // k} byte {j % k}: file has {b[off + j]:#04x}, the same assignment on an in-memory copy gives {exp[j]:#04x}"
+                    + ("; the map itself shows the new value" if ed["map_points"][:n * k] == exp else "")))
+    if ed.get("exact"):
+        for i, bs in ed["exact"].items():
+            foff, width = ed["fields"][0]
+            if b[off + i * k + foff:off + i * k + foff + width] != bs:
+                out.append((f"mmap edit did not store the value ({how})", f"record {i}: bytes {b[off + i * k + foff:off + i * k + foff + width].hex()} expected {bs.hex()}"))
+                break
+    if ed["read_points"] != b[off:off + n * k] or ed["read_points"] != exp:
+        out.append((f"mmap edit not visible to a subsequent read ({how})", "laspy.read after the edit shows other records than the assigned ones"))
     return out
 
 
@@ -734,67 +1051,130 @@ def search(ctx, seeds):
             seen.add(kind)
             failing.append({"kind": kind, "input": inp, "observed": why})
     for f in obs["files"]:
-        if f["cls"] == "malformed":
-            continue
         ref = f["ref"]
-        if "err" in ref:
-            add("a file written by laspy cannot be read by path", {"file": f["label"], "file_hex": f["raw"].hex()}, ref.get("msg"))
-            continue
-        t = f["truth"]
-        if ref["ok"]["points"] != t["points"] or ref["ok"]["evlrs"] != t["evlrs"] or len(ref["ok"]["vlrs"]) != t["vlrs"]:
-            add("the path read differs from what was written", {"file": f["label"], "class": f["cls"], "kind": "path", "file_hex": f["raw"].hex()},
-                f"records equal: {ref['ok']['points'] == t['points']} ({ref['ok']['count']} read, {f['n']} written); "
-                f"evlrs equal: {ref['ok']['evlrs'] == t['evlrs']}; vlrs {len(ref['ok']['vlrs'])} read, {t['vlrs']} written")
-        if ref["opened"]["evlrs"] != t["evlrs"]:
-            add("just opened by path (read_evlrs=True): evlrs differ from what was written", {"file": f["label"], "class": f["cls"], "kind": "path",
-                "read_evlrs": True, "chunk": None, "stage": "opened", "file_hex": f["raw"].hex()}, f"{ref['opened']['evlrs']!r}"[:200])
-        ref_open = {}
-        for (kind, e, c), got in f["runs"]:
-            if kind == "path" and e not in ref_open:
-                ref_open[e] = got
-        for (kind, e, c), got in f["runs"]:
+        full = f["cls"] != "malformed"      # valid, trailing, gap, truncated: the result must not depend on the source
+        if full:
+            if "err" in ref and f["cls"] != "truncated":
+                add("a file written by laspy cannot be read by path", {"file": f["label"], "file_hex": f["raw"].hex()}, ref.get("msg"))
+                continue
+        if full and "ok" in ref:
+            t = f["truth"]
+            tp = t["points"] if f["cls"] != "truncated" else t["points"][:2 * f["stored"] * f["ps"]]
+            te = t["evlrs"] if f["cls"] != "truncated" else ref["ok"]["evlrs"]
+            if ref["ok"]["points"] != tp or ref["ok"]["evlrs"] != te or len(ref["ok"]["vlrs"]) != t["vlrs"]:
+                add("the path read differs from what was written", {"file": f["label"], "class": f["cls"], "kind": "path", "file_hex": f["raw"].hex()},
+                    f"records equal: {ref['ok']['points'] == tp} ({ref['ok']['count']} read, {f.get('stored', f['n'])} stored); "
+                    f"evlrs equal: {ref['ok']['evlrs'] == te}; vlrs {len(ref['ok']['vlrs'])} read, {t['vlrs']} written")
+            if f["cls"] != "truncated" and ref["opened"]["evlrs"] != t["evlrs"]:
+                add("just opened by path (read_evlrs=True): evlrs differ from what was written", {"file": f["label"], "class": f["cls"], "kind": "path",
+                    "read_evlrs": True, "plan": "-", "stage": "opened", "file_hex": f["raw"].hex()}, f"{ref['opened']['evlrs']!r}"[:200])
+        ref_same = {}
+        for (kind, e, plan), got in f["runs"]:
+            if kind == "path":
+                ref_same[(e, plan_tok(plan))] = got
+        for (kind, e, plan), got in f["runs"]:
             sk, _ = caps_of(kind)
-            inp = {"file": f["label"], "class": f["cls"], "kind": kind, "read_evlrs": e, "chunk": c, "file_hex": f["raw"].hex()}
-            for (k, why) in judge(f["raw"], f["cls"], kind, e, c, ref, ref_open.get(e), got):
-                if k == "accepted":
-                    ctx.count("bare source, file with EVLRs: AttributeError (accepted, see assumptions)")
-                else:
+            inp = {"file": f["label"], "class": f["cls"], "kind": kind, "read_evlrs": e, "plan": plan_tok(plan), "file_hex": f["raw"].hex()}
+            if full:
+                for (k, why) in judge(f["raw"], f["cls"], kind, e, plan, ref, ref_same.get((e, plan_tok(plan))), got):
                     add(k, inp, why)
+            elif sk and kind != "path" and not (f["label"].endswith("/small_offset")):
+                # a malformed file: every source that can seek must do what the path does, at every stage
+                rs = ref_same.get((e, plan_tok(plan)))
+                if rs is not None:
+                    d = same_read(rs, got)
+                    if d:
+                        add(f"{d.split(':')[0].split(' ')[0]} differ from the path read: {src_name(kind)}, malformed file", inp, d)
+            # whatever the file: a source that does not say it can seek is never asked to seek or tell, and a source is
+            # only asked for what it offers
             if "log" in got and not sk:
                 bad = [t for t in got["log"] if t[0] in "st"] + [a for a in got["asked"] if a in ("seek", "tell")]
                 if bad:
-                    add("non-seekable source asked to seek/tell", inp, f"calls {bad[:6]} in {got['log'][:12]}")
-        d = same_read(ref, f["mmap"])
-        if d:
-            add(f"{d.split(':')[0].split(' ')[0]} differ from the path read: mmap, {f['cls']} file",
-                {"file": f["label"], "class": f["cls"], "kind": "mmap", "file_hex": f["raw"].hex()}, d)
-        elif "ok" in f["mmap"] and f["mmap"]["ok"]["count"] != f["n"]:
-            add("mmap record count differs from the header's", {"file": f["label"], "kind": "mmap", "file_hex": f["raw"].hex()},
-                f"{f['mmap']['ok']['count']} records, header says {f['n']}")
+                    add(f"non-seekable source asked to seek/tell ({f['cls'] if f['cls'] in ('malformed', 'truncated') else 'valid'} file)", inp,
+                        f"calls {bad[:6]} in {got['log'][:12]}; outcome {got.get('err', 'ok')} {got.get('msg', '')}")
+            if "asked" in got and not has_close(kind):
+                extra = sorted(set(got["asked"]) - {"readinto", "seekable"})
+                if extra:
+                    add("a source that offers only read() was asked for something else", inp, f"attributes {extra}; outcome {got.get('err', 'ok')} {got.get('msg', '')}")
+        if full:
+            for kind, got in f["reads"]:
+                if f["cls"] == "gap" and not caps_of(kind)[0]:
+                    continue
+                d = same_read(ref, got)
+                if d:
+                    add(f"laspy.read: {d.split(':')[0].split(' ')[0]} differ from the path read: {src_name(kind)}, {f['cls']} file",
+                        {"file": f["label"], "class": f["cls"], "kind": kind, "route": "laspy.read", "file_hex": f["raw"].hex()}, d)
+                if "log" in got and not caps_of(kind)[0]:
+                    bad = [t for t in got["log"] if t[0] in "st"] + [a for a in got["asked"] if a in ("seek", "tell")]
+                    if bad:
+                        add("non-seekable source asked to seek/tell (laspy.read)", {"file": f["label"], "class": f["cls"], "kind": kind, "route": "laspy.read",
+                                                                                       "file_hex": f["raw"].hex()}, f"calls {bad[:6]}")
+        if f["cls"] in ("valid", "trailing", "gap"):
+            d = same_read(ref, f["mmap"])
+            if d:
+                add(f"{d.split(':')[0].split(' ')[0]} differ from the path read: mmap, {f['cls']} file",
+                    {"file": f["label"], "class": f["cls"], "kind": "mmap", "file_hex": f["raw"].hex()}, d)
+            elif "ok" in f["mmap"] and f["mmap"]["ok"]["count"] != f["n"]:
+                add("mmap record count differs from the header's", {"file": f["label"], "kind": "mmap", "file_hex": f["raw"].hex()},
+                    f"{f['mmap']['ok']['count']} records, header says {f['n']}")
     for ed in obs["edits"]:
-        inp = {"file": ed["file"], "dim": ed["dim"], "i": ed["i"], "value": ed.get("value"), "file_hex": ed["raw_before"].hex()}
-        if "err" in ed:
-            add("mmap edit raised: " + ed["err"].split(":")[0], inp, ed["err"])
-            continue
-        a, b = ed["raw_before"], ed["raw_after"]
-        lo = ed["off"] + ed["i"] * ed["ps"] + ed["foff"]
-        hi = lo + ed["width"]
-        if len(a) != len(b):
-            add("mmap edit changed the file length", inp, f"{len(a)} -> {len(b)}")
-            continue
-        outside = [j for j in range(len(a)) if a[j] != b[j] and not lo <= j < hi]
-        if outside:
-            add("mmap edit changed bytes outside the assigned dimension", inp, f"dimension bytes [{lo},{hi}), changed {outside[:8]}")
-        if b[lo:hi] != ed["expect"]:
-            add("mmap edit did not store the value", inp, f"bytes {b[lo:hi].hex()} expected {ed['expect'].hex()}")
-        if ed["read_field"] != ed["expect"] or ("read_sub" in ed and ed["read_sub"] != ed["value"]):
-            add("mmap edit not visible to a subsequent read", inp, f"read {ed['read_field'].hex()} / {ed.get('read_sub')} expected {ed['expect'].hex()} / {ed['value']}")
-        k = ed["ps"]
-        exp_pts = a[ed["off"]:ed["off"] + ed["n"] * k]
-        exp_pts = exp_pts[:ed["i"] * k + ed["foff"]] + ed["expect"] + exp_pts[ed["i"] * k + ed["foff"] + ed["width"]:]
-        if ed["read_points"] != exp_pts:
-            add("records read after an mmap edit differ elsewhere", inp, "other record bytes changed")
+        inp = {"file": ed["file"], "kind": "mmap-edit", "dim": ed["dim"], "route": ed["route"], "sel": ed.get("sel"), "value": ed.get("value"),
+               "file_hex": ed["raw_before"].hex()}
+        for (k, why) in judge_edit(ed):
+            add(k, inp, why)
     return failing
+
+
+def replay_edit(inp):
+    """re-does one assignment through laspy.mmap on the file of the failing input"""
+    import laspy
+    raw = bytes.fromhex(inp["file_hex"])
+    tmp = tempfile.mkdtemp(prefix="c17_", dir="/var/tmp")
+    try:
+        path = os.path.join(tmp, "m.las")
+        with open(path, "wb") as fh:
+            fh.write(raw)
+        name, route = inp["dim"], inp["route"]
+        twin = laspy.read(path)
+        n = len(twin.points)
+        sel = inp.get("sel")
+        if isinstance(sel, list):
+            sel = np.array(sel)
+        elif isinstance(sel, str):
+            sel = eval(sel, {"slice": slice, "None": None})      # repr of None / int / slice written by this module
+        if name in ("x", "y", "z", "xyz"):
+            vals = np.array([lasio.bits_f64(b) for b in inp["value"]])
+            values = vals.reshape((-1, 3)) if name == "xyz" else (float(vals[0]) if route == "view[i]" else vals)
+        else:
+            values = np.array(inp["value"], dtype=twin.points.array.dtype.fields[field_of(twin.point_format, name)[0]][0].base
+                              if field_of(twin.point_format, name)[3] is None else np.uint8)
+            if route == "view[i]":
+                values = values[0]
+
+        def do(las):
+            try:
+                assign(las, route, name, values, sel)
+            except Exception:  # noqa: scaled extra dimension: through the record array
+                las.points.array[name][sel] = values
+        do(twin)
+        with laspy.mmap(path) as m:
+            do(m)
+        after = open(path, "rb").read()
+        back = laspy.read(path)
+        off, k = int.from_bytes(raw[96:100], "little"), twin.point_format.size
+        bad = []
+        if after[off:off + n * k] != lasio.rec_bytes(twin.points):
+            bad.append("the file does not hold what the same assignment gives on an in-memory copy")
+        if lasio.rec_bytes(back.points) != lasio.rec_bytes(twin.points):
+            bad.append("a subsequent laspy.read does not show the assigned values")
+        print("REPRODUCED:" if bad else "not reproduced", bad)
+        return 1 if bad else 0
+    finally:
+        shutil.rmtree(tmp, ignore_errors=True)
+
+
+def parse_plan(tok):
+    return [] if tok in (None, "-", "") else [(t[0], int(t[1:])) for t in tok.split(",")]
 
 
 def replay(ctx, data):
@@ -802,23 +1182,33 @@ def replay(ctx, data):
     if "file_hex" not in inp or "kind" not in inp:
         print("replay: re-run ./check C17 with the same VERIF_SEED; the failing case is described in the file")
         return 0
+    if inp["kind"] == "mmap-edit":
+        return replay_edit(inp)
     raw = bytes.fromhex(inp["file_hex"])
     tmp = tempfile.mkdtemp(prefix="c17_", dir="/var/tmp")
     try:
         path = os.path.join(tmp, "f.las")
         with open(path, "wb") as fh:
             fh.write(raw)
-        ref = read_through("path", raw, path, True, None)
+        ref = read_through("path", raw, path, True, [])
         if inp["kind"] == "mmap":
             got = read_mmap(path)
             bad = [d for d in [same_read(ref, got)] if d]
+        elif inp.get("route") == "laspy.read":
+            got = read_through(inp["kind"], raw, path, None, [], route="read")
+            bad = [d for d in [same_read(ref, got)] if d]
         else:
-            e, c = inp.get("read_evlrs", True), inp.get("chunk")
-            got = read_through(inp["kind"], raw, path, e, c)
-            ref_open = read_through("path", raw, path, e, None)
-            bad = [x for x in judge(raw, inp.get("class", "valid"), inp["kind"], e, c, ref, ref_open, got) if x[0] != "accepted"]
+            e, plan = inp.get("read_evlrs", True), parse_plan(inp.get("plan"))
+            got = read_through(inp["kind"], raw, path, e, plan)
+            ref_same = read_through("path", raw, path, e, plan)
+            if inp.get("class") == "malformed":
+                bad = [d for d in [same_read(ref_same, got)] if d] if caps_of(inp["kind"])[0] else []
+            else:
+                bad = judge(raw, inp.get("class", "valid"), inp["kind"], e, plan, ref, ref_same, got)
             if not caps_of(inp["kind"])[0]:
-                bad += [t for t in got.get("log", []) if t[0] in "st"]
+                bad += [t for t in got.get("log", []) if t[0] in "st"] + [a for a in got.get("asked", []) if a in ("seek", "tell")]
+            if not has_close(inp["kind"]):
+                bad += sorted(set(got.get("asked", [])) - {"readinto", "seekable"})
         print("REPRODUCED:" if bad else "not reproduced", bad, got.get("log"))
         return 1 if bad else 0
     finally:
